@@ -22,7 +22,8 @@ Inductive stop :=
 | SObserve (segs : list (Z * Z)) (nmem : Z)
 | SHolders (gap : Z)     (* during the preceding Flush: min over its hook points of (#queued memtables + #registered segments) minus the value at its start *)
 | SCompactFiles (lost : Z)  (* during the preceding compaction: segment files that existed at its start and were gone before the merged segment was registered *)
-| SInFlight (compact : bool).
+| SInFlight (compact : bool)
+| STrainT (vs : list vec) (err : Z).   (* the freshly constructed vector template of this session is trained before the store is opened *)
 
 Definition pfst4 : P (Z * Z * Z * Z) := a <- pz ;; b <- pz ;; c <- pz ;; d <- pz ;; ret (a, b, c, d).
 
@@ -42,6 +43,7 @@ Definition pstop : P stop :=
   else if t =? 12 then (g <- pz ;; ret (SHolders g))
   else if t =? 13 then (g <- pz ;; ret (SCompactFiles g))
   else if t =? 11 then (c <- pbool ;; ret (SInFlight c))
+  else if t =? 14 then (vs <- pvecs ;; e <- pz ;; ret (STrainT vs e))
   else (fun _ => None).
 
 Definition fstate_of (z : Z) : fstate :=
@@ -82,10 +84,37 @@ Definition only_complete_segments (h : sth) (out : list (Z * Z)) : bool :=
   subsetz (map fst out) allowed.
 
 (** what the property demands of one search answer, given the specification state *)
-Definition spec_ok (h : sth) (rq : hyrequest) (out : list (Z * Z)) : bool :=
+(** A store over a partitioned (IVF) vector template legitimately misses far documents when fewer
+    cells are probed than exist, so the specification index (exhaustive) cannot be demanded in full.
+    What C08 / C09 demand of a vector query there: a live document whose stored vector IS the query
+    vector sits in the cell its own vector is nearest to, so a vector-only query with that vector,
+    no threshold and k at least the number of live documents must return it -- whatever partition the
+    freshly trained template of the current session has.  (Not demanded when the faithful model
+    reports a probe tie, [weak], or when a coordinate is not an ordinary number.) *)
+Definition ordinary32 (b : Z) : bool := Z.land b 2147483647 <=? 1233125376.   (* |x| <= 2^20 *)
+Definition self_query_ok (spec : hystate) (rq : hyrequest) (out : list (Z * Z)) : bool :=
+  match hy_vec spec, preprocess (p_metric (hy_p spec)) (hq_vec rq) with
+  | Some vs, Some q =>
+      if forallb ordinary32 (hq_vec rq) && (Z.of_nat (length (hy_info spec)) <=? hq_k rq) && (hq_thr rq =? 0)
+      then forallb (fun e => negb (list_eqb (e_vec e) q) || memz (e_id e) (st_deleted vs) || negb (memz (e_id e) (map fst (hy_info spec))) || memz (e_id e) (ids_of out))
+                   (all_entries vs)
+      else true
+  | _, _ => true
+  end.
+
+Definition spec_ok (h : sth) (rq : hyrequest) (weak : bool) (out : list (Z * Z)) : bool :=
   let spec := if sh_crashed h then sh_durable h else sh_spec h in
+  let '(cfgp, _, _) := sh_cfg h in
+  let partitioned := match p_kind cfgp with KFlat => false | _ => true end in
+  let has_vec := match hq_vec rq with [] => false | _ => true end in
   subsetz (ids_of out) (sh_added h) &&
   (negb (sh_crashed h) || only_complete_segments h out) &&
+  if partitioned && has_vec then
+    match hq_txt rq, hq_filters rq, hq_groups rq with
+    | [], [], [] => weak || sh_corrupt h || self_query_ok spec rq out
+    | _, _, _ => true
+    end
+  else
   match hy_search spec rq with
   | HOk o =>
       let want := firstn (ho_n o) (ho_full o) in
@@ -192,6 +221,12 @@ Definition ststep (h : sth) (o : stop) : sth + list Z :=
              sh_known := remember_segs h s'; sh_cfg := sh_cfg h; sh_session := sh_session h;
              sh_spec_session := sh_spec_session h; sh_crashed := sh_crashed h; sh_corrupt := sh_corrupt h;
              sh_i := sh_i h + 1; sh_weak := sh_weak h; sh_found := sh_found h |}
+  | STrainT vs err =>
+      let '(hy', e) := hy_train (hy_of (s_T s) []) vs in
+      if e =? err then
+        inl (upd_model h {| s_T := triple_of hy'; s_queue := s_queue s; s_segs := s_segs s; s_counter := s_counter s;
+                            s_limit := s_limit s; s_cthr := s_cthr s; s_closed := s_closed s |})
+      else errmis e err
   | SHolders gap =>
       (* no instant of a flush at which an acknowledged memtable is neither queued nor registered as a
          segment (a concurrent search would miss its documents; a failing flush would lose them) *)
@@ -224,7 +259,7 @@ Definition ststep (h : sth) (o : stop) : sth + list Z :=
       | SOk o =>
           if negb (err =? 0) then inr (verdict false false [sh_i h; 0])
           else
-            let sok := spec_ok h rq out in
+            let sok := spec_ok h rq (so_weak o) out in
             let s' := after_search s o in
             let agree := so_weak o || match_results64 (so_merged o) (so_n o) out in
             if agree then
@@ -255,7 +290,7 @@ Definition ststep (h : sth) (o : stop) : sth + list Z :=
 Fixpoint strun (h : sth) (ops : list stop) : list Z :=
   match ops with
   | [] => match sh_found h with
-          | k :: _ => [3; fold_left Z.min (sh_found h) k]
+          | _ :: _ => 3 :: isort (fun x => x) (sh_found h)     (* every mechanism met, each must be a listed finding *)
           | [] => if sh_weak h =? 0 then v_ok else [0; sh_weak h]
           end
   | o :: t => match ststep h o with inl h' => strun h' t | inr v => v end
@@ -264,7 +299,9 @@ Fixpoint strun (h : sth) (ops : list stop) : list Z :=
 (** 800: params, hasV hasT hasM, memtable size limit, compaction threshold, ops *)
 Definition chk_storehist : P (list Z) :=
   p <- pparams ;; hv <- pbool ;; ht <- pbool ;; hm <- pbool ;; limit <- pz ;; cthr <- pz ;; ops <- plist pstop ;;
-  let spec0 := {| hy_p := p; hy_vec := if hv then Some (vinit p) else None; hy_txt := if ht then Some binit else None;
+  (* the specification index is exhaustive whatever the kind of the configured template *)
+  let fp := {| p_kind := KFlat; p_dim := p_dim p; p_metric := p_metric p; p_nlist := 1; p_M := 1; p_nbits := 1 |} in
+  let spec0 := {| hy_p := fp; hy_vec := if hv then Some (vinit fp) else None; hy_txt := if ht then Some binit else None;
                   hy_meta := if hm then Some minit else None; hy_info := [] |} in
   ret (strun {| sh_model := open_store p hv ht hm limit cthr [] 0; sh_spec := spec0; sh_durable := spec0;
                 sh_added := []; sh_known := []; sh_cfg := (p, (hv, ht, hm), (limit, cthr)); sh_session := 1;
